@@ -299,3 +299,133 @@ def replay_fx(ctx, payload):
     ctx.cov["traces_validated_against_impl"] = 1
     if st["mismatches"]:
         ctx.violation(payload["signature"], payload["what"], dict(kind="fx", case=payload["case"]))
+
+
+# ------------------------------------------------------------------ C09 C10 C16
+def tool_sig(mode, e):
+    if e["ev"] == "rt":
+        bad = sorted(set("%s:%s" % (r["by"], r["r"].get("err")) for r in e["res"]))
+        return "%s rt dialect=%s results=%s" % (mode, e["dialect"], ",".join(bad))
+    if e["ev"] == "load":
+        return "%s load dialect=%s outcome=%s" % (mode, e["dialect"], e["res"].get("err"))
+    return "%s %s dialect=%s via=%s" % (mode, e["ev"], e.get("dialect"), e.get("via"))
+
+
+def check_C09(ctx):
+    ctx.cov["rule"] = ("warriors of length 1..12 (every '94 form in turn; '88 forms steered to the legal ones, TLC's Legal88 decides), fields anywhere in [0,M) printed unsigned or signed, every entry point, "
+                       "M in {3,80,8000,8192}; printed in the canonical load-file layout and in seeded layout-only perturbations (letter case, blanks/tabs, comment/blank/metadata lines, trailing comments, CR-LF, "
+                       "missing final newline, and combinations); each text is read by ParseLoadFile AND CompileWarrior and TLC requires every result to be exactly W (implied modifiers under '88). "
+                       "distinct_nontrivial = perturbed texts read.")
+    ctx.cov["trusted_base"] = ["canonical printer and perturbations (harness/tools.go)", "harness/enc.go tables", "TLC"]
+    shards, st = gen_asm(ctx, "loadrt", ["-shards", 16 if ctx.quick else 64, "-n", 3000 if ctx.quick else 60000], "c09")
+    rej, nom = validate_asm(ctx, shards, "C09", module="ToolTrace")
+    ctx.cov["traces_validated_against_impl"] = st["warriors"]
+    ctx.cov["evaluations"] = st["texts"] * 2
+    ctx.cov["distinct_nontrivial"] = st["texts"] // 2
+    ctx.cov["states"] = max(ctx.cov["states"], 1)
+    ctx.notes.update(st)
+    ctx.notes["warriors_without_meaning"] = nom
+    ctx.sample(read_line(shards[0], 1))
+    reproduce_asm(ctx, "C09", rej, replay_cmd="rt-replay", sigfn=tool_sig, module="ToolTrace")
+
+
+def check_C10(ctx):
+    ctx.cov["rule"] = ("canonical load files with structured corruptions (deleted/duplicated/transposed fields, out-of-range/negative/malformed numbers, unknown mnemonics, wrong modes, directives in odd places, "
+                       "missing commas, joined/split lines, garbage lines, dialect mismatch, unterminated last line) and truncation at EVERY byte offset of canonical files; both dialects, M in {3,80,8000}. "
+                       "A generic tokenizer logs the line structure; TLC checks on each recorded read: no panic; a successful read is well-formed, legal under '88, and has exactly one instruction per "
+                       "effective non-directive line before the end marker (nothing skipped silently). No predicted acceptance is compared. distinct_nontrivial = accepted texts.")
+    ctx.cov["trusted_base"] = ["generic line tokenizer (harness/tools.go lineStructure)", "harness/enc.go tables", "TLC"]
+    shards, st = gen_asm(ctx, "loadcorrupt", ["-shards", 16 if ctx.quick else 64, "-n", 4000 if ctx.quick else 100000], "c10")
+    rej, _ = validate_asm(ctx, shards, "C10", module="ToolTrace")
+    ctx.cov["traces_validated_against_impl"] = st["texts"]
+    ctx.cov["evaluations"] = st["texts"]
+    ctx.cov["distinct_nontrivial"] = st["accepted"]
+    ctx.cov["states"] = max(ctx.cov["states"], 1)
+    ctx.notes.update(st)
+    ctx.sample(read_line(shards[0], 3))
+    reproduce_asm(ctx, "C10", rej, replay_cmd="rt-replay", sigfn=tool_sig, module="ToolTrace")
+
+
+def check_C16(ctx):
+    ctx.cov["rule"] = ("warriors produced by the real assembler or loader of the same dialect (every '94 form in turn, legal '88 forms), fields across [0,M) including M/2, M/2+1 and (M+1)/2, identical neighbouring "
+                       "instructions, every entry point, even and odd core sizes {3,7,80,257,8000,8191,8192,55440}; LoadCode() is tokenized generically and TLC applies the pMARS listing reader (Formats!ReadListing) "
+                       "and requires the result to equal the warrior, fields mod M. MC_Listing shows ReadListing(ListingOf(W)) = W for every form. distinct_nontrivial = listings read back.")
+    ctx.cov["trusted_base"] = ["generic listing tokenizer (harness/tools.go)", "TLC"]
+    r = ctx.tlc("MC_Listing", cfg="MC_Listing.cfg" if ctx.quick else "MC_Listing_thorough.cfg", workers=NCPU, timeout=3000, heap="16g")
+    ctx.notes["spec_model"] = "MC_Listing: %d states, RoundTrip holds" % r["distinct"]
+    shards, st = gen_asm(ctx, "listing", ["-shards", 16 if ctx.quick else 64, "-n", 3000 if ctx.quick else 80000], "c16")
+    rej, nom = validate_asm(ctx, shards, "C16", module="ToolTrace")
+    ctx.cov["traces_validated_against_impl"] = st["warriors"]
+    ctx.cov["evaluations"] = st["warriors"]
+    ctx.cov["distinct_nontrivial"] = st["warriors"] - nom
+    ctx.notes.update(st)
+    ctx.sample(read_line(shards[0], 1))
+    reproduce_asm(ctx, "C16", rej, replay_cmd="rt-replay", sigfn=tool_sig, module="ToolTrace")
+
+
+# ------------------------------------------------------------------ C17
+def build_gmars(ctx):
+    out = os.path.join(ctx.sub("bin"), "gmars")
+    p = subprocess.run(["go", "build", "-o", out, "./cmd/gmars"], cwd=REPO, env=dict(os.environ, **GOENV), capture_output=True, text=True)
+    if p.returncode != 0:
+        raise ToolError("cmd/gmars does not build:\n" + p.stdout + p.stderr)
+    return out
+
+
+def cli_sig(mode, e):
+    f = e["flags"]
+    kind = "preset=" + f["preset"] if f["preset"] else ("random-placement" if f["F"] == 0 and len(e["progs"]) == 2 else "fixed")
+    return "C17 cli %s exit=%s%s" % (kind, e["exit"], " p>s" if not f["preset"] and f["p"] > f["s"] else "")
+
+
+def check_C17(ctx):
+    ctx.cov["rule"] = ("the real cmd/gmars binary (built from the repository) is run on generated warrior files (renderings of abstract programs, so Asm!Meaning knows what they denote) over flag vectors "
+                       "-s -p -c -l -8 -F -r (core sizes from 3*len+1 up, process limits below and above the core size, 1-2 warriors, 1..12 rounds) and over every preset with scenarios whose outcome depends on the "
+                       "read/write limits, the cycle limit and the process limit. TLC derives the configuration from the flags (presets as documented in README), runs MARS!RunW at the fixed placement and "
+                       "requires both result lines to equal the tallies; for random placement it checks wins1+wins2+ties = rounds, ties1 = ties2, exit status 0. "
+                       "distinct_nontrivial = invocations whose warriors have a meaning.")
+    ctx.cov["trusted_base"] = ["warrior renderer", "integer tokenization of the result lines", "README preset table transcribed in CliTrace.tla", "TLC"]
+    ctx.assumptions.append("battles TLC can follow: cores <= 8192 cells; battles of thousands of cycles on the 8000-cell presets only in the thorough tier")
+    binp = build_gmars(ctx)
+    args = ["-bin", binp, "-shards", 16, "-n", 150 if ctx.quick else 1500]
+    if not ctx.quick:
+        args.append("-long")
+    shards, st = gen_asm(ctx, "cli", args, "c17")
+    rej, nom = validate_asm(ctx, shards, "C17", module="CliTrace", heap="6g")
+    ctx.cov["traces_validated_against_impl"] = st["invocations"]
+    ctx.cov["evaluations"] = st["invocations"]
+    ctx.cov["distinct_nontrivial"] = st["invocations"] - nom
+    ctx.notes.update(st)
+    ctx.notes["invocations_without_meaning"] = nom
+    ctx.sample({k: v for k, v in read_line(shards[0], 1).items() if k != "raw"})
+    seen = {}
+    for shard, idx in rej:
+        e = read_line(shard, idx)
+        seen.setdefault(cli_sig("C17", e), []).append(e)
+    for n, (sig, evs) in enumerate(list(seen.items())[:12]):
+        e = evs[0]
+        d = ctx.sub("clirepro%d" % n)
+        src = os.path.join(d, "in.ndjson")
+        open(src, "w").write(json.dumps(e) + "\n")
+        ctx.run_harness(["cli-replay", "-in", src, "-out", os.path.join(d, "re"), "-bin", binp])
+        rf = os.path.join(d, "re.000.ndjson")
+        rej2, _ = validate_asm(ctx, [rf], "C17", module="CliTrace", heap="6g")
+        e2 = read_line(rf, 1)
+        if not rej2 and not (e["flags"]["F"] == 0 and len(e["progs"]) == 2):
+            raise ToolError("rejection (%s) did not reproduce" % sig)
+        what = "gmars %s on %s printed %r (exit %s, stderr %r)" % (" ".join("-%s %s" % (k, v) for k, v in e["flags"].items() if v not in (0, "")),
+                                                               [render_prog_brief(p)[:160] for p in e["progs"]], e2["raw"], e2["exit"], e2["stderr"][:200])
+        ctx.violation(sig, what, dict(kind="cli", event=e, others_with_same_signature=len(evs) - 1))
+
+
+def replay_cli(ctx, payload):
+    binp = build_gmars(ctx)
+    d = ctx.sub("replay")
+    src = os.path.join(d, "in.ndjson")
+    open(src, "w").write(json.dumps(payload["event"]) + "\n")
+    ctx.run_harness(["cli-replay", "-in", src, "-out", os.path.join(d, "re"), "-bin", binp])
+    rej, _ = validate_asm(ctx, [os.path.join(d, "re.000.ndjson")], "C17", module="CliTrace", heap="6g")
+    ctx.cov["traces_validated_against_impl"] = 1
+    ctx.cov["evaluations"] = 1
+    if rej:
+        ctx.violation(payload["signature"], payload["what"], dict(kind="cli", event=payload["event"]))
